@@ -22,8 +22,8 @@ PROP_NO = 19
 LEVEL = "fault_enumeration"
 RULE = ("one evaluation = one scenario (version history, page size, window, sample step, failing subset, completion order) run "
         "through S3VersionUtil.list_versions and .get; histories of <= 4 (quick) / <= 6 (thorough) versions are enumerated "
-        "completely over page sizes 1..n+1, all windows on the version-time grid (+-1 s and open ends), all failing subsets and "
-        "sample steps 1..3; longer histories (up to 300 versions) are sampled; distinct = distinct scenario tuples; non-trivial = "
+        "completely over page sizes 1..n+1, all windows on the version-time grid (+-1 s and open ends), all failing subsets (6 versions: "
+        "the failing sets of size 0, 1, 5 and 6) and sample steps 1..3; longer histories (up to 300 versions) are sampled; distinct = distinct scenario tuples; non-trivial = "
         "the listing needs more than one page, or the window cuts the history, or at least one download fails")
 ASSUMPTIONS = [
     "one key per listing prefix; newest-first listing by modification time; no delete markers; the service's clock does not go backwards",
@@ -79,6 +79,9 @@ def make_spec(st, idx, tier):
                 real_tm=(idx % 16 == 3), ops=[])
 
 
+FULL_SUBSETS_UP_TO = 5  # every failing subset is enumerated for histories of up to this many versions
+
+
 def enumerate_scenarios(hist):
     n = len(hist)
     ts = sorted({h["t"] for h in hist})
@@ -90,12 +93,24 @@ def enumerate_scenarios(hist):
                     continue
                 for sample in (1, 2, 3):
                     for r in range(0, n + 1):
+                        if n > FULL_SUBSETS_UP_TO and 1 < r < n - 1:
+                            continue  # 6 versions: only the empty, single, all-but-one and complete failing sets (cost bound)
                         for fail in itertools.combinations(range(n), r):
                             yield dict(page=page, start=s, end=e, sample=sample, fail=list(fail), order_seed=(page * 7919 + len(fail) * 31 + sample) % 1000003)
 
 
+_CSV_CACHE = {}
+
+
 def csv_of(rows):
-    return pd.DataFrame(rows).to_csv(index=False)
+    # the same version bodies are stored again for every scenario of a history: render each once
+    key = id(rows)
+    hit = _CSV_CACHE.get(key)
+    if hit is None or hit[0] is not rows:
+        if len(_CSV_CACHE) > 4096:
+            _CSV_CACHE.clear()
+        hit = _CSV_CACHE[key] = (rows, pd.DataFrame(rows).to_csv(index=False))
+    return hit[1]
 
 
 def to_dt(sec):
